@@ -338,9 +338,77 @@ def install_dump():
     builtins.open = vopen
 
 
+
+# ------------------------------------------------------------------ rpms manifest (C12 / C03 / C10)
+# Raw arguments and a small projection; the abstraction to the spec's vocabulary is done by harness/rpms_traces.py.
+
+def _rpms_proj(m):
+    try:
+        return {"nv": len(m.rpms), "nt": sum(len(m.rpms[v]) for v in m.rpms),
+                "n": sum(len(m.rpms[v][a][s]) for v in m.rpms for a in m.rpms[v] for s in m.rpms[v][a])}
+    except Exception:
+        return {"nv": -1, "nt": -1, "n": -1}
+
+
+def _rpms_add(orig, self, a, kw):
+    names = ("variant", "arch", "nevra", "path", "sigkey", "category", "srpm_nevra")
+    args = dict(zip(names, a))
+    args.update(kw)
+    out, res, exc = call(orig, self, a, kw)
+    ev = {"op": "add", "out": out, "args": {k: (args.get(k) if isinstance(args.get(k), (str, type(None))) else repr(args.get(k))) for k in names}}
+    ev.update(_rpms_proj(self))
+    if out == "ok":
+        # what is stored for the call's own nevra, found by scanning for the stored path (no library parsing involved)
+        try:
+            tree = self.rpms[args["variant"]][args["arch"]]
+            hits = [(s, r, d) for s in tree for r, d in tree[s].items() if d.get("path") == args.get("path")]
+            ev["stored"] = [{"srpm": s, "rpm": r, "sigkey": d.get("sigkey"), "path": d.get("path"), "category": d.get("category")} for s, r, d in hits]
+        except Exception:
+            ev["stored"] = None
+    emit(self, "rpms", ev)
+    if exc is not None:
+        raise exc
+    return res
+
+
+def _rpms_del(orig, self, a, kw):
+    out, res, exc = call(orig, self, a, kw)
+    ev = {"op": "del", "v": a[0] if a and isinstance(a[0], str) else repr(a[:1]), "out": out}
+    ev.update(_rpms_proj(self))
+    emit(self, "rpms", ev)
+    if exc is not None:
+        raise exc
+    return res
+
+
+def _rpms_deserialize(orig, self, a, kw):
+    data = a[0] if a else kw.get("data")
+    out, res, exc = call(orig, self, a, kw)
+    ev = {"op": "load", "out": out}
+    try:
+        ev["ver"] = data["header"]["version"]
+        if out == "ok" and "rpms" in data["payload"]:
+            p = data["payload"]["rpms"]
+            ev["doc"] = [{"v": v, "a": ar, "srpm": s, "rpm": r, "path": d.get("path"), "sigkey": d.get("sigkey"), "category": d.get("category")}
+                         for v in p for ar in p[v] for s in p[v][ar] for r, d in p[v][ar][s].items()]
+    except Exception:
+        pass
+    ev.update(_rpms_proj(self))
+    emit(self, "rpms", ev)
+    if exc is not None:
+        raise exc
+    return res
+
+
+def install_rpms():
+    import productmd.rpms as R
+    wrap(R.Rpms, "add", _rpms_add)
+    wrap(R.Rpms, "__delitem__", _rpms_del)
+    wrap(R.Rpms, "deserialize", _rpms_deserialize)
+
 # ------------------------------------------------------------------ install / flush
 
-INSTALLERS = [install_images, install_forest, install_dump]
+INSTALLERS = [install_images, install_forest, install_dump, install_rpms]
 
 
 def install():
